@@ -102,8 +102,13 @@ func vfC24Seq(rec *evid.Rec, s int) {
 	}
 	steps := 1 + rng.Intn(6)
 	for i := 0; i < steps; i++ {
-		kind := []string{"UpdateExportOptions", "UpdateExportOptions", "UpdateTuningOptions", "UpdatePolicyOptions", "UpdateExportOptions+SquashChange", "UpdatePolicyOptions+SquashChange"}[rng.Intn(6)]
+		kind := []string{"UpdateExportOptions", "UpdateExportOptions", "UpdateTuningOptions", "UpdatePolicyOptions", "UpdateExportOptions+SquashChange", "UpdatePolicyOptions+SquashChange",
+			"UpdateExportOptions+SquashSpelling", "UpdateExportOptions(edited-in-place)", "UpdateExportOptions(edited-in-place)+SquashChange"}[rng.Intn(9)]
 		before := srv.nfs.GetExportOptions()
+		// value snapshots: `before` itself may share memory with the live configuration (that is
+		// one of the things being checked), so comparisons use copies taken now
+		beforeView := vfTuningView(before)
+		beforePolicy := fmt.Sprintf("ro=%v secure=%v squash=%q maxfile=%d ips=%v rl=%v", before.ReadOnly, before.Secure, before.Squash, before.MaxFileSize, before.AllowedIPs, before.EnableRateLimiting)
 		var want map[string]any // expected tuning view after the call (nil = unchanged)
 		fieldCls := "-"
 		cls := func(o ExportOptions) string {
@@ -135,6 +140,64 @@ func vfC24Seq(rec *evid.Rec, s int) {
 				}
 			}()
 			switch kind {
+			case "UpdateExportOptions(edited-in-place)", "UpdateExportOptions(edited-in-place)+SquashChange":
+				// the natural read-modify-write: take the reported options and edit them where they
+				// are, including through the Timeouts pointer ("0 = give me the default")
+				o := srv.nfs.GetExportOptions()
+				if o.Timeouts != nil {
+					for _, f := range []*time.Duration{&o.Timeouts.ReadTimeout, &o.Timeouts.WriteTimeout, &o.Timeouts.LookupTimeout, &o.Timeouts.DefaultTimeout, &o.Timeouts.ReaddirTimeout} {
+						if rng.Intn(2) == 0 {
+							*f = []time.Duration{0, -time.Second, 7 * time.Second}[rng.Intn(3)]
+						}
+					}
+				}
+				for i := range o.AllowedIPs {
+					o.AllowedIPs[i] = "203.0.113.9"
+				}
+				o.TransferSize = []int{0, 8192, 16384}[rng.Intn(3)]
+				fieldCls = cls(o)
+				desc = fmt.Sprintf("%s %v", kind, vfTuningView(o))
+				ops = append(ops, desc)
+				evid.Journal(ops)
+				// nothing has been submitted yet: the configuration in force must be what it was
+				if mid := vfTuningView(srv.nfs.GetExportOptions()); !reflect.DeepEqual(mid, beforeView) {
+					fail("C24/editing-the-reported-options-changes-the-configuration-in-force", fmt.Sprintf("before any update call: %v -> %v", beforeView, mid))
+				}
+				if lr, lerr := c.lookup(root, "f"); lerr != nil || lr == nil || lr.Status != 0 {
+					fail("C24/editing-the-reported-options-breaks-service", fmt.Sprintf("LOOKUP after editing the struct returned by GetExportOptions, before any update: %v %d", lerr, vfSt(lr)))
+				}
+				if kind == "UpdateExportOptions(edited-in-place)+SquashChange" {
+					o.Squash = "all"
+					rejected = true
+				}
+				cerr = srv.nfs.UpdateExportOptions(o)
+				if !rejected {
+					ref, rerr := New(refs.New(), o)
+					if rerr == nil {
+						vfQuiet(ref)
+						want = vfTuningView(ref.GetExportOptions())
+						ref.Close()
+					}
+				}
+			case "UpdateExportOptions+SquashSpelling":
+				// same mode, other spelling: accepted as a whole or rejected as a whole
+				o := vfC24RandOpts(rng, before)
+				fieldCls = cls(o)
+				o.Squash = []string{"Root", "ROOT", "rOOt", " root"}[rng.Intn(4)]
+				desc = fmt.Sprintf("%s squash=%q %v", kind, o.Squash, vfTuningView(o))
+				ops = append(ops, desc)
+				evid.Journal(ops)
+				cerr = srv.nfs.UpdateExportOptions(o)
+				if cerr != nil {
+					rejected = true
+				} else {
+					ref, rerr := New(refs.New(), o)
+					if rerr == nil {
+						vfQuiet(ref)
+						want = vfTuningView(ref.GetExportOptions())
+						ref.Close()
+					}
+				}
 			case "UpdateExportOptions", "UpdateExportOptions+SquashChange":
 				o := vfC24RandOpts(rng, before)
 				fieldCls = cls(o)
@@ -189,13 +252,19 @@ func vfC24Seq(rec *evid.Rec, s int) {
 			if cerr == nil {
 				fail("C24/squash-change-accepted/"+kind, desc)
 			}
-			if !reflect.DeepEqual(before, after) {
+			if mw, _, _ := srv.nfs.workerPool.Stats(); before.MaxWorkers > 0 && mw != before.MaxWorkers {
+				fail("C24/rejected-update-changed-configuration/"+kind+"/component=worker-pool", fmt.Sprintf("the update returned %q yet the pool went from %d to %d workers", cerr, before.MaxWorkers, mw))
+			}
+			afterPolicy := fmt.Sprintf("ro=%v secure=%v squash=%q maxfile=%d ips=%v rl=%v", after.ReadOnly, after.Secure, after.Squash, after.MaxFileSize, after.AllowedIPs, after.EnableRateLimiting)
+			if av := vfTuningView(after); !reflect.DeepEqual(beforeView, av) || beforePolicy != afterPolicy {
 				var diff []string
-				bv, av := vfTuningView(before), vfTuningView(after)
-				for k := range bv {
-					if !reflect.DeepEqual(bv[k], av[k]) {
-						diff = append(diff, fmt.Sprintf("%s: %v -> %v", k, bv[k], av[k]))
+				for k := range beforeView {
+					if !reflect.DeepEqual(beforeView[k], av[k]) {
+						diff = append(diff, fmt.Sprintf("%s: %v -> %v", k, beforeView[k], av[k]))
 					}
+				}
+				if beforePolicy != afterPolicy {
+					diff = append(diff, beforePolicy+" -> "+afterPolicy)
 				}
 				fail("C24/rejected-update-changed-configuration/"+kind, fmt.Sprintf("the update returned %q yet changed: %v", cerr, diff))
 			}
